@@ -1,6 +1,7 @@
 package main
 
 import (
+	"bytes"
 	"fmt"
 	"go/ast"
 	"go/parser"
@@ -11,20 +12,20 @@ import (
 	"path/filepath"
 	"regexp"
 	"sort"
-	"strconv"
 	"strings"
 	"sync"
 )
 
 // outcome is everything observed about one case after the real generator ran.
 type outcome struct {
-	run     string              // ok | err:<class>
-	methods map[string][]string // receiver type -> sorted method names (`*` = pointer receiver)
-	results map[string]string   // Type.Method -> result type expression (single result)
-	imports []string            // import paths of the generated file that the definition file does not import itself
-	fmt     string              // clean | dirty | n/a
-	build   string              // ok | fail:<class> | vet:<class> | n/a
-	log     string
+	run      string              // ok | err:<class>
+	methods  map[string][]string // receiver type -> sorted method names (`*` = pointer receiver)
+	results  map[string]string   // Type.Method -> result type expression (single result)
+	imports  []string            // import paths of the generated file that the definition file does not import itself
+	fmt      string              // clean | dirty | n/a
+	overprev string              // same | differs | n/a (generation over a different, longer previous output vs a fresh package)
+	build    string              // ok | fail:<class> | vet:<class> | n/a
+	log      string
 }
 
 // item is one case being prepared.
@@ -164,6 +165,8 @@ func classifyBuild(out string) string {
 	switch {
 	case strings.Contains(out, "does not implement") || strings.Contains(out, "missing method"):
 		return "not-implemented"
+	case strings.Contains(out, "has no field or method"):
+		return "no-such-method"
 	case strings.Contains(out, "duplicate case"):
 		return "duplicate-case"
 	case strings.Contains(out, "redeclared") || strings.Contains(out, "no new variables") || strings.Contains(out, "already declared"):
@@ -184,39 +187,29 @@ var reVetMsg = regexp.MustCompile(`: ([a-z][a-z -]+)`)
 
 // generate runs the real CLI on one item the way go:generate would (cwd = package directory).
 func (w *world) generate(it *item) {
-	o := &outcome{methods: map[string][]string{}, results: map[string]string{}, fmt: "n/a", build: "n/a"}
+	o := &outcome{methods: map[string][]string{}, results: map[string]string{}, fmt: "n/a", build: "n/a", overprev: "n/a"}
 	it.out = o
 	defs := filepath.Join(it.dir, "defs.go")
-	var src, assert string
-	var args []string
-	switch it.gen {
-	case "genum":
-		c := it.gc
-		src, assert = c.source(it.pkg), c.assertSource(it.pkg)
-		args = []string{"-in", "defs.go", "-types", strings.Join(c.typeNames(), ","),
-			"-json=" + strconv.FormatBool(c.opts[0]), "-yaml=" + strconv.FormatBool(c.opts[1]), "-text=" + strconv.FormatBool(c.opts[2]),
-			"-caseInsensitive=" + strconv.FormatBool(c.opts[3]), "-disableTraits=" + strconv.FormatBool(c.opts[4])}
-		if p := c.parsable(); len(p) > 0 {
-			args = append(args, "-parsableByTraits", strings.Join(p, ","))
-		}
-	case "gerror":
-		c := it.ec
-		src, assert = c.source(it.pkg), c.assertSource(it.pkg)
-		args = []string{"-in-file", "defs.go", "-types", strings.Join(c.typeNames(), ",")}
-		if c.skip {
-			args = append(args, "-skipConvertGen")
-		}
-	case "gsort":
-		c := it.sc
-		src, assert = c.source(it.pkg), c.assertSource(it.pkg)
-		args = []string{"-in-file", "defs.go", "-types", strings.Join(c.typeNames(), ",")}
-	}
+	src, args := it.srcArgs()
+	assert := it.assertSource()
 	os.WriteFile(defs, []byte(src), 0o644)
-	cmd := exec.Command(w.bins[it.gen], args...)
-	cmd.Dir = it.dir
-	cmd.Env = append(append([]string{}, w.env...), "PWD="+it.dir, "GOFILE=defs.go", "GOPACKAGE="+it.pkg)
-	out, err := cmd.CombinedOutput()
-	o.log = string(out)
+	runCLI := func(dir string, a []string) ([]byte, error) {
+		cmd := exec.Command(w.bins[it.gen], a...)
+		cmd.Dir = dir
+		cmd.Env = append(append([]string{}, w.env...), "PWD="+dir, "GOFILE=defs.go", "GOPACKAGE="+it.pkg)
+		return cmd.CombinedOutput()
+	}
+	// a previous run with a longer output in the same package (what go generate leaves behind
+	// before a directive or definition is edited)
+	prev := it.prevArgs()
+	if prev != nil {
+		if out, err := runCLI(it.dir, prev); err != nil {
+			o.log += "previous run failed: " + string(out)
+			prev = nil
+		}
+	}
+	out, err := runCLI(it.dir, args)
+	o.log += string(out)
 	if err != nil {
 		o.run = classifyGen(string(out))
 		// a definition the generator rejected must not break the batch build
@@ -228,6 +221,20 @@ func (w *world) generate(it *item) {
 	o.run = "ok"
 	genFile := filepath.Join(it.dir, "defs."+it.gen+".go")
 	b, err := os.ReadFile(genFile)
+	if prev != nil {
+		// the same run in a fresh package must write the same bytes
+		fresh := filepath.Join(w.root, "m", "fresh_"+it.pkg, it.pkg)
+		os.MkdirAll(fresh, 0o755)
+		os.WriteFile(filepath.Join(fresh, "defs.go"), []byte(src), 0o644)
+		o.overprev = "differs"
+		if _, ferr := runCLI(fresh, args); ferr == nil {
+			fb, ferr2 := os.ReadFile(filepath.Join(fresh, "defs."+it.gen+".go"))
+			if (ferr2 != nil && err != nil) || (ferr2 == nil && err == nil && bytes.Equal(fb, b)) {
+				o.overprev = "same"
+			}
+		}
+		os.RemoveAll(filepath.Dir(fresh))
+	}
 	if err != nil {
 		// gsort writes nothing when no sorter is defined
 		o.fmt, o.imports = "clean", nil
